@@ -149,6 +149,9 @@ pub fn candidates(honest: &CardanoStakeDistributionMessage, certs: &[Cert], cert
     let mut picks: Vec<String> = ids.clone();
     rnd::shuffle(rng, &mut picks);
     picks.truncate(4);
+    if map.contains_key("pool1abcx7") && !picks.iter().any(|p| p == "pool1abcx7") {
+        picks.push("pool1abcx7".to_string());
+    }
     for id in &picks {
         let st = map[id];
         push("stake_plus1", &|s| {
@@ -319,7 +322,15 @@ pub fn falsehoods(served: &CardanoStakeDistributionMessage, certs: &HashMap<Stri
 /// one world's stake-distribution cases
 pub async fn run(agg: &mut Agg, certs: &mut Vec<Cert>, cert_map: &mut HashMap<String, Cert>, mon: &mut Monitor, rng: &mut ChaCha20Rng, n_cases: usize, epoch_base: u64, world_tag: &str) {
     for i in 0..n_cases {
-        let map = gen_map(rng);
+        let map = if i == 0 {
+            // the canonical witness pair of the probe: {"pool1abcx7": 5} vs {"pool1abcx": 75},
+            // alone in the first world of a shard, among other pools elsewhere
+            let mut m = if world_tag.ends_with("-w0") { StakeDistribution::new() } else { gen_map(rng) };
+            m.insert("pool1abcx7".to_string(), 5);
+            m
+        } else {
+            gen_map(rng)
+        };
         let epoch = epoch_base + i as u64;
         let (cert, honest) = match agg.sign_stake_distribution(epoch, &map).await {
             Ok(x) => x,
@@ -366,9 +377,14 @@ pub async fn run(agg: &mut Agg, certs: &mut Vec<Cert>, cert_map: &mut HashMap<St
                         &format!("served stake distribution differs from the certified one and is accepted ({}): {detail}", c.class),
                         replay(),
                     );
-                    if mon.wants_sample() && *sig == SIG_SHIFT {
-                        mon.sample(json!({"kind": "stake", "class": c.class, "outcome": "ACCEPTED", "difference": detail}));
+                    if world_tag.starts_with("s0-") && mon.counter("sample|stake_shift") < 1 && *sig == SIG_SHIFT {
+                        mon.count("sample|stake_shift");
+                        mon.sample(json!({"kind": "stake", "class": c.class, "outcome": "ACCEPTED", "certified": cert.stakes, "served": served.stake_distribution, "difference": detail}));
                     }
+                }
+                else if world_tag.starts_with("s0-") && mon.counter("sample|stake") < 1 && c.class == "stake_plus1" {
+                    mon.count("sample|stake");
+                    mon.sample(json!({"kind": "stake", "class": c.class, "outcome": outcome.label(), "pools": served.stake_distribution.len(), "false_claims": f.iter().map(|(s, d)| format!("{s}: {d}")).collect::<Vec<_>>()}));
                 }
             } else if accepted {
                 mon.count("stake|accepted_truthful");
